@@ -2,4 +2,4 @@
 From Coq Require Import Extraction ExtrOcamlBasic ExtrOcamlString.
 From Sylt Require Import Syntax.Resolved Types.TyGraph Types.Tc.
 Extraction Language OCaml.
-Extraction "typesmodel.ml" Tc.typecheck Tc.id_orc.
+Extraction "typesmodel.ml" Tc.typecheck.
